@@ -17,10 +17,11 @@ static ssize_t _fast_append(MPT_STRUCT(slice) *sl, size_t nblk, const void *from
 	pos = sl->_off + sl->_len;
 	avail = buf->_size - pos;
 	
-	add = esze;
+	add = 0;
 	take = 0;
-	while (add < avail && nblk--) {
+	while (nblk-- && (avail - take) >= esze) {
 		take += esze;
+		++add;
 	}
 	ptr = (void *) (buf + 1);
 	if (from) {
@@ -31,10 +32,10 @@ static ssize_t _fast_append(MPT_STRUCT(slice) *sl, size_t nblk, const void *from
 	sl->_len += take;
 	pos += take;
 	used = buf->_used;
-	if (used > pos) {
-		buf->_used = used;
+	if (pos > used) {
+		buf->_used = pos;
 	}
-	return take;
+	return add;
 }
 
 /*!
